@@ -277,7 +277,7 @@ def _main(a, t0):
     obligations += prov_obs
     if prov_inv is not None:
         functions.append({"function": "fastavro/**/*.py (every function: store sites)", "behavior": "frame",
-                          "source_hash": "-", "obligations": len(prov_obs), "paths": 0, "inlined": [],
+                          "source_hash": prov_inv.get("source_hash", "-"), "obligations": len(prov_obs), "paths": 0, "inlined": [],
                           "gen_s": 0.0, "solve_s": 0.0, "functions_analysed": prov_inv["functions"]})
     n_ob = len(obligations)
     discharged = [o for o in obligations if o["verdict"] == "discharged"]
@@ -293,8 +293,10 @@ def _main(a, t0):
                   open(ledger_path, "w"), indent=0, sort_keys=True)
         ledger = json.load(open(ledger_path))
     fail_closed = []
-    if n_ob == 0:
+    if n_ob == 0 and (cfg["functions"] or cfg.get("provenance")):
         fail_closed.append("zero obligations generated")
+    if not cfg["functions"] and not cfg.get("provenance") and not bproc:
+        fail_closed.append("nothing to run for this property")
     if ledger:
         for f in functions:
             k = f["function"] + "[" + f["behavior"] + "]"
@@ -321,6 +323,8 @@ def _main(a, t0):
     # ---------------------------------------------------------------- verdict
     violations = []
     undecided = []
+    if bounded is not None and bounded["evaluations"] == 0:
+        errors.append(("bounded", "the bounded stand-in explored zero cases"))
     if bounded and bounded["n_failures"]:
         for i, f in enumerate(bounded["failures"][:5]):
             rp = os.path.join(VERIF, "replays", prop, f"bounded_{f['clause']}_{i}.py")
